@@ -176,6 +176,47 @@ Theorem C19_calls_only_value_error : forall (T : Type) a hs gw job gk expo (t : 
 Proof. exact (@calls_only_VE). Qed.
 Print Assumptions C19_calls_only_value_error.
 
+(* --- successive calls in one process ------------------------------------------------------------------------------- *)
+(* seq_in h cs = the calls cs made one after the other in a process whose header-list objects (the only mutable thing
+   a handler is ever given) are the heap h; every call comes with what its handler does to the list it receives
+   (c_acts: append - as basic_auth_handler does -, clear, replace, insert, pop).  call_alone c = the call made in a
+   process that has issued nothing.  calls_seq = seq_in on the empty heap.                                           *)
+
+(* independence: whatever the process did before (any heap), and whatever the handlers of the earlier calls did to
+   what they were given, every call of the sequence hands its handler exactly what it hands it when made alone *)
+Theorem C19_sequence_independent : forall (T : Type) (h : heap) (cs : list (call T)),
+  fst (seq_in h cs) = map call_alone cs.
+Proof. exact (@seq_independent). Qed.
+Print Assumptions C19_sequence_independent.
+
+(* in particular in a fresh process, and a sequence of one call is the call *)
+Theorem C19_sequence_fresh : forall (T : Type) (cs : list (call T)) (c : call T),
+  calls_seq cs = map call_alone cs
+  /\ calls_seq [c] = [calls_of (c_api c) (c_hs c) (c_gw c) (c_job c) (c_gk c) (c_expo c) (c_timeout c)].
+Proof. exact (fun T cs c => conj (seq_fresh cs) (seq_fresh [c])). Qed.
+Print Assumptions C19_sequence_fresh.
+
+(* the call at any position, after any calls `pre` (other jobs, keys, gateways, registries, handlers) and before any
+   `post`: for Unicode inputs exactly one request, to the URL of ITS job and grouping key on ITS gateway, with ITS
+   method, body and timeout, and with the text content type as the ONLY header - nothing an earlier request added *)
+Theorem C19_sequence_request : forall (T : Type) (h : heap) (pre : list (call T)) c post,
+  Forall (fun ch => ch < 55296 \/ (57344 <= ch /\ ch < 1114112)) (c_job c) ->
+  Forall (fun kv => Forall (fun ch => ch < 55296 \/ (57344 <= ch /\ ch < 1114112)) (snd kv)) (c_gk c) ->
+  exists r, nth_error (fst (seq_in h (pre ++ c :: post))) (length pre) = Some (Ok [r])
+    /\ url_of (gateway_base (c_hs c) (c_gw c)) (c_job c) (c_gk c) = Ok (rq_url r)
+    /\ rq_method r = match c_api c with Push => s2l "PUT" | PushAdd => s2l "POST" | Delete => s2l "DELETE" end
+    /\ rq_body r = match c_api c with Delete => [] | _ => c_expo c end
+    /\ rq_headers r = [(s2l "Content-Type", s2l "text/plain; version=0.0.4; charset=utf-8")]
+    /\ rq_timeout r = c_timeout c.
+Proof. exact (@seq_nth_request). Qed.
+Print Assumptions C19_sequence_request.
+
+(* and the other direction: no call touches a header list that an earlier request was given *)
+Theorem C19_sequence_earlier_headers_untouched : forall (T : Type) (h : heap) (cs : list (call T)) b,
+  (b < length h)%nat -> heap_read (snd (seq_in h cs)) b = heap_read h b.
+Proof. exact (@seq_heap_untouched). Qed.
+Print Assumptions C19_sequence_earlier_headers_untouched.
+
 (* a gateway given as g, g/, g//..., http://g, http://g/... is the same gateway; https is kept *)
 Theorem C19_gateway_spelling : forall g n,
   g <> [] -> rstrip SLASH g = g ->
@@ -235,3 +276,19 @@ Example C19_example_empty_push :
   = Ok [mkReq (s2l "http://gw:9091/metrics/job/nightly/shard/a%20b") (s2l "PUT") 7
               [(s2l "Content-Type", s2l "text/plain; version=0.0.4; charset=utf-8")] []].
 Proof. vm_compute. reflexivity. Qed.
+
+(* an authenticated push (the handler appends an Authorization header to the list it is given), then a delete and a
+   pushadd elsewhere: the later requests carry the content type alone, and the first request's list object (address 0)
+   still holds what its handler put there *)
+Example C19_example_sequence :
+  let ct := (s2l "Content-Type", s2l "text/plain; version=0.0.4; charset=utf-8") in
+  let auth := (s2l "Authorization", s2l "Basic YTpi") in
+  let cs := [mkCall Push false (s2l "internal:9091") (s2l "batch") [(s2l "k", s2l "1")] [35] 30 [HAppend auth];
+             mkCall Delete true (s2l "https://other/") (s2l "batch") [(s2l "k", s2l "1.0")] [35] 7 [HClear];
+             mkCall PushAdd false (s2l "other") (s2l "a b") [(s2l "k", s2l "True")] [36] 0 [HKeep]] in
+  calls_seq cs
+  = [Ok [mkReq (s2l "http://internal:9091/metrics/job/batch/k/1") (s2l "PUT") 30 [ct] [35]];
+     Ok [mkReq (s2l "https://other/metrics/job/batch/k/1.0") (s2l "DELETE") 7 [ct] []];
+     Ok [mkReq (s2l "http://other/metrics/job/a%20b/k/True") (s2l "POST") 0 [ct] [36]]]
+  /\ snd (seq_in [] cs) = [[ct; auth]; []; [ct]].
+Proof. vm_compute. split; reflexivity. Qed.
